@@ -17,7 +17,9 @@ Tie, on every run, two processes as in reality (real FIFO, real POSIX shm):
      poll/open/munmap/mutex; only the final files and the lost count are compared (the theorem says
      every schedule gives the same files).
 The executable checker ok_c03 (file = concatenation of what the thread put into its buffers, LOST
-rule, LOST count) is applied inside Coq to the implementation's files.
+rule, LOST count) is applied inside Coq to the implementation's outputs alone: in step mode the
+per-thread log is OBSERVED (growth of the thread's shm buffers after every hook call, `losts` going up =
+a drop), independent of the model; in soak mode (no failures injected) the log is the model's.
 """
 import glob
 import os
@@ -133,6 +135,53 @@ class Pair:
         except (OSError, struct.error):
             return (0xffff, 0xffff)
 
+    def shm_data(self, tid, idx, a, b):
+        with open("/dev/shm/uftrace-%s-%d-%03d" % (self.session(), tid, idx), "rb") as f:
+            f.seek(16 + a)
+            return f.read(b - a)
+
+    def sizes(self, t):
+        if t not in self.tids:
+            return {}
+        return {i: self.shm_header(self.tids[t], i)[1] for i in range(self.pstate[t][0])}
+
+    def hook(self, t, line, log):
+        """one hook call of thread t; appends to `log` what the thread was seen to put into its buffers:
+        ("E", bytes) per record, ("M", n, bytes) for a LOST record, ("D",) when losts went up"""
+        pre = self.sizes(t)
+        old = self.pstate.get(t, (0, -1, 0))
+        self.on_thread(t, [line])
+        self.refresh(t)
+        post = self.sizes(t)
+        chunks = []
+        for i, sz in post.items():
+            a = pre.get(i, 0)
+            if sz > a:
+                chunks.append((i, self.shm_data(self.tids[t], i, a, sz)))
+
+        def key(ch):
+            i, data = ch
+            if i == old[1] and i in pre:
+                return (0, 0)
+            recs = [data[j:j + 16] for j in range(0, len(data), 16)]
+            for r in recs:
+                if struct.unpack("<Q", r[8:16])[0] & 3 != 2:
+                    return (1, struct.unpack("<Q", r[0:8])[0])
+            return (2, 0)
+        marker = False
+        for i, data in sorted(chunks, key=key):
+            for j in range(0, len(data), 16):
+                r = data[j:j + 16]
+                w = struct.unpack("<Q", r[8:16])[0]
+                if w & 3 == 2:
+                    log.append(("M", w >> 16, r))
+                    marker = True
+                else:
+                    log.append(("E", r))
+        lo = self.pstate[t][2]
+        if (marker and lo > 0) or (not marker and lo > old[2]):
+            log.append(("D",))
+
     def snapshot(self, nt):
         """flat list of ints, same layout as UV.C03.Model.snap"""
         rev = {v: k for k, v in self.tids.items()}
@@ -240,15 +289,14 @@ def run_step(ctx, exes, case, n):
     pr = Pair(ctx, exes, case["bufsize"], case["nw"], "step", case["seed"], n)
     nt = case["nt"]
     snaps = []
+    logs = [[] for _ in range(nt)]
     try:
         for o in case["ops"]:
             k = o[0]
             if k == "E":
-                pr.on_thread(o[1], ["E %d %d" % (o[2], o[3])])
-                pr.refresh(o[1])
+                pr.hook(o[1], "E %d %d" % (o[2], o[3]), logs[o[1]])
             elif k == "X":
-                pr.on_thread(o[1], ["X %d" % o[2]])
-                pr.refresh(o[1])
+                pr.hook(o[1], "X %d" % o[2], logs[o[1]])
             elif k == "END":
                 # TEND runs the thread destructor (shmem_finish) and switches back to thread 0
                 if pr.cur != o[1]:
@@ -272,7 +320,7 @@ def run_step(ctx, exes, case, n):
                 pr.R(k)
             snaps.append(pr.snapshot(nt))
         files = pr.files(nt)
-        return {"snaps": snaps, "files": files, "lost": pr.lost, "base": pr.base,
+        return {"snaps": snaps, "files": files, "lost": pr.lost, "base": pr.base, "logs": logs,
                 "final_losts": {t: v[2] for t, v in pr.pstate.items() if t not in pr.ended}}
     finally:
         pr.close()
@@ -311,7 +359,7 @@ def run_soak(ctx, exes, case, n):
         if not l.startswith("DONE"):
             raise RuntimeError("c03_recorder soak failed: %r %s" % (l, pr.rec.stderr.read()[-800:]))
         lost = int(l.strip().split("=")[1])
-        return {"snaps": [], "files": pr.files(nt), "lost": lost, "base": pr.base, "final_losts": {}}
+        return {"snaps": [], "files": pr.files(nt), "lost": lost, "base": pr.base, "final_losts": {}, "logs": []}
     finally:
         pr.close()
 
@@ -320,10 +368,17 @@ def case_term(case, res):
     ops = "[" + "; ".join(coq_op(o) for o in model_ops(case["ops"], case["kind"] == "soak")) + "]"
     snaps = "[" + ";\n ".join("[" + "; ".join("%d" % x for x in s) + "]" for s in res["snaps"]) + "]"
     files = "[" + "; ".join("[" + "; ".join("%d" % b for b in f) + "]" for f in res["files"]) + "]"
+    def ev(e):
+        if e[0] == "E":
+            return "Emit [%s]" % "; ".join("%d" % b for b in e[1])
+        if e[0] == "M":
+            return "Marker %d [%s]" % (e[1], "; ".join("%d" % b for b in e[2]))
+        return "Drop []"
+    logs = "[" + ";\n ".join("[" + "; ".join(ev(e) for e in l) + "]" for l in res["logs"]) + "]"
     return ("{| c_bufsize := %d; c_nw := %d; c_nt := %d; c_base := %d%%N;\n c_ops := %s;\n c_snaps := (%s)%%N;\n"
-            " c_files := (%s)%%N; c_lost := %d%%N |}"
+            " c_files := (%s)%%N; c_lost := %d%%N;\n c_logs := (%s)%%N |}"
             % (case["bufsize"], case["nw"], case["nt"], res["base"], ops, snaps if res["snaps"] else "[]",
-               files, res["lost"]))
+               files, res["lost"], logs))
 
 
 # ---------------------------------------------------------------- generators
@@ -617,9 +672,9 @@ def run(ctx):
     cases += directed(rng)
     tl = tail_loss_case(rng)
     cases.append(tl)
-    for _ in range(ctx.n(22, 300)):
+    for _ in range(ctx.n(40, 400)):
         cases.append(gen_random(rng, big=ctx.thorough()))
-    for _ in range(ctx.n(10, 120)):
+    for _ in range(ctx.n(16, 150)):
         cases.append(gen_soak(rng, big=ctx.thorough()))
     results = []
     kept = []
@@ -669,8 +724,9 @@ def run(ctx):
     ctx.rule = ("model: UV.C03.Model (producer ring + FIFO + N writers + stop/flush LTS); a case is a script of "
                 "operations executed by two processes (real libmcount objects; real cmds/record.c) over the real "
                 "FIFO and POSIX shm; step mode compares a snapshot of both sides after every operation with the "
-                "model (vm_compute), soak mode (free-running, seeded delays) the final files; checker ok_c03: file "
-                "bytes = concatenation of the thread's emitted records, LOST rule, LOST count")
+                "model (vm_compute), soak mode (free-running, seeded delays) the final files; checker ok_c03 on the "
+                "implementation's outputs: file bytes = concatenation of the records seen to enter the thread's shm "
+                "buffers, LOST marker before the next record after a drop, LOST count = sum of markers")
     ctx.trusted = ["Coq 8.16.1 kernel + vm_compute", "axioms: none (Print Assumptions: closed)",
                    "hand-written model coq/theories/C03/Model.v (tied by differential testing, not derived from the C text)",
                    "gen/gen_consts.py (record/flag constants)",
